@@ -231,4 +231,25 @@ theorem dynLoop_dynCompLoop (bitSize : Nat) (hb1 : 1 ≤ bitSize) (hb : bitSize 
         simp only [List.length_append, List.reverse_cons, List.append_assoc, List.singleton_append, AgRes.mk.injEq, true_and]
         omega
 
+/-- a value fits `cb` bits (two's complement) -/
+def Fits (cb : Nat) (y : Int) : Prop := -(2 : Int) ^ (cb - 1) ≤ y ∧ y < (2 : Int) ^ (cb - 1)
+
+/-- `dyn_decomp (dyn_comp (r)) = r` at the level of the two entry points -/
+theorem dynDecomp_dynComp (bitSize : Nat) (hb1 : 1 ≤ bitSize) (hb : bitSize ≤ 31) (pc : List Int)
+    (hfit : ∀ x ∈ pc, Fits bitSize x) (rest : Bits) (pos byteSize : Nat)
+    (hroom : pos + (dynComp stdAg pc bitSize).length ≤ byteSize * 8) :
+    dynDecomp stdAg ⟨dynComp stdAg pc bitSize ++ rest, pos⟩ byteSize pc.length bitSize =
+      (⟨true, pc, (dynComp stdAg pc bitSize).length⟩, ⟨rest, pos + (dynComp stdAg pc bitSize).length⟩) := by
+  have h := dynLoop_dynCompLoop bitSize hb1 hb (pos % 8) (byteSize * 8) (Nat.mod_lt _ (by decide)) pc.length pc pc.length 0 10 0 [] rest
+    (Nat.le_refl _) (Nat.le_refl _) (by decide) (by decide) (by intro h; omega) hfit
+    (by have := Nat.mod_le pos 8; simp only [dynComp, show stdAg.mb0 = 10 from rfl] at hroom; omega)
+  unfold dynDecomp
+  simp only [show stdAg.mb0 = 10 from rfl]
+  unfold dynComp at hroom ⊢
+  simp only [show stdAg.mb0 = 10 from rfl] at hroom ⊢
+  rw [h]
+  simp only [List.reverse_nil, List.nil_append, Nat.zero_add, Rd.advance, List.drop_left' rfl, Rd.curByte, Bool.true_and, Prod.mk.injEq,
+    AgRes.mk.injEq, and_true, true_and, decide_eq_true_eq]
+  omega
+
 end Sf.AlacCore
